@@ -87,6 +87,23 @@ def containment(ctx):
         # any other call on a module object / read function: must be inside a catch-all
         t, h = contained_by_catch_all(c)
         ok = t is not None and not handler_reraises(h)
+        if t is not None and not ok and h.name:
+            # `except Exception as e: if isinstance(e, CommunicationFailedError): raise` - handed on to an outer handler for that class
+            raises = [x for st in h.body for x in walk_local(st) if isinstance(x, ast.Raise)]
+            known = set()
+            for x in raises:
+                for a in ancestors(x):
+                    if a is h:
+                        break
+                    if isinstance(a, ast.If):
+                        for at, tv in facts_on_side(a.test, True):
+                            if tv and isinstance(at, ast.Call) and dotted(at.func) == 'isinstance' and len(at.args) == 2 and src(at.args[0]) == h.name \
+                                    and any(x is y for b in a.body for y in ast.walk(b)):
+                                known.add((id(x), dotted(at.args[1])))
+            outer_ok = lambda cls: any(part == 'body' and any(cls in (handler_type_names(h2) or []) and not handler_reraises(h2) for h2 in t2.handlers)
+                                       for t2, part in enclosing_tries(t))      # noqa: E731
+            if raises and all(x.exc is None and any(i == id(x) and cls and outer_ok(cls) for i, cls in known) for x in raises):
+                ok = True
         ctx.check(ok, construct, c, 'inside try/except Exception without re-raise',
                   f'`{src(c)}` runs driver code directly in the poll thread and is not inside a catch-all handler: any '
                   'exception other than the ones caught ends the poll thread - the start callback is never invoked and '
@@ -208,7 +225,8 @@ def only_polled_parameters(ctx):
                 ctx.analysed(g)
     ctx.check(ok, f'{pt.qualname}:slow polls drawn from polled_parameters', pt.node, 'to_poll.extend(pinfo.polled_parameters)',
               'the slow-poll list is filled from another source than polled_parameters', pt)
-    first = [n for n in body_walk(pt.node) if isinstance(n, ast.For) and src(n.iter).endswith('polled_parameters')]
+    first = [n for n in body_walk(pt.node) if isinstance(n, ast.For) and (src(n.iter).endswith('polled_parameters') or
+                                                                           ('polled_parameters' in src(n.iter) and 'chain' in src(n.iter)))]
     ctx.check(bool(first), f'{pt.qualname}:first polls drawn from polled_parameters', pt.node, 'initial round iterates polled_parameters',
               'the initial round does not iterate polled_parameters', pt)
     # wrappers set the flag
